@@ -14,6 +14,8 @@ type Check struct {
 	ID          string
 	Title       string
 	Level       string // evidence level
+	LevelText   string
+	Technique   string
 	Rule        string
 	Explain     string
 	Assumptions []string
@@ -30,6 +32,8 @@ var engineAssumptions = []string{
 var checks = []Check{
 	{
 		ID: "C15", Title: "host set and health checking keep a consistent usable view", Level: "model_checking",
+		LevelText: "explicit-state BFS over every operation sequence on the real host.Set up to depth 5/7 against a reference model in every state; every interleaving (preemption bound 2/3) of 2-3 threads of set operations plus a reader; every check-outcome sequence for all thresholds 0..3 through the real monitor step",
+		Technique: "explicit-state BFS over operation histories + preemption-bounded schedule exploration of real goroutines",
 		Rule:        "states = canonical dumps of the real host.Set (three maps, cache, per-object flag/latch) reached by operation sequences; every state non-trivial (differs from all others); schedules = distinct choice sequences",
 		Assumptions: engineAssumptions,
 		Jobs: []Job{
